@@ -115,6 +115,14 @@ CONTROLS = [
         '            NodeEvent::Enter(RefNode::CompilerDirective(x)) => {\n                let locate: Locate = x.try_into().unwrap();\n                if let Some(last_include_line) = last_include_line {\n                    if last_include_line == locate.line {\n                        return Err(Error::IncludeLine);\n                    }\n                }\n            }',
         '            NodeEvent::Enter(RefNode::CompilerDirective(_)) => {}', 1)]),
     # ---- MIR controls (each needs one cargo +nightly check of the scratch copy)
+    ('x17-range-eq-touching', 'X17', 'syn', 'Range::eq', [('sv-parser-pp/src/range.rs', '            other.begin < self.end\n', '            other.begin <= self.end\n', 1)]),
+    ('x18-comment-inside-string', 'X18', 'syn', 'char-lost:string', [(PPF, "} else if c == '/' && iter.peek() == Some(&'/') && !is_string {", "} else if c == '/' && iter.peek() == Some(&'/') {", 1)]),
+    ('x18-escaped-quote-ends-string', 'X18', 'syn', 'string-ident-run', [(PPF, """} else if c == '"' && is_string && !is_escaped {""", """} else if c == '"' && is_string {""", 1)]),
+    ('x18-comment-end-glued', 'X18', 'syn', 'ident-glued-after:comment-end', [(PPF,
+        "            is_comment = false;\n            // The text before the comment is a run of its own, so that an\n            // identifier directly followed by the comment is still substituted.\n            ret.push(x);\n            x = String::from(\"\");\n            x.push(c);",
+        "            is_comment = false;\n            x.push(c);", 1)]),
+    ('x18-identifier-start-only', 'X18', 'syn', 'ident-glued-after', [(PPF, '            if is_ident != is_ident_prev {', '            if is_ident && !is_ident_prev {', 1)]),
+    ('x18-last-run-dropped', 'X18', 'syn', 'last-run-lost', [(PPF, "        is_escaped = is_string && c == '\\\\' && !is_escaped;\n    }\n    ret.push(x);\n    ret", "        is_escaped = is_string && c == '\\\\' && !is_escaped;\n    }\n    ret", 1)]),
     ('s1-version-stack-not-reset', 'S1', 'mir', 'not-reset:CURRENT_VERSION', [(PARSER + 'lib.rs', '    clear_directive();\n    clear_version();\n}', '    clear_directive();\n}', 1)]),
     ('s2-grammar-function-exported', 'S2', 'mir', 'source_text', [(PARSER + 'source_text/system_verilog_source_text.rs', 'pub(crate) fn source_text(s: Span)', 'pub fn source_text(s: Span)', 1)]),
     ('s3-scope-leak-on-error-path', 'S3', 'mir', 'text_macro_usage:unbalanced', [(CD,
